@@ -358,6 +358,17 @@ func NewServer(h func(req *Message, reqErr error, conn net.Conn, br *bufio.Reade
 	return s, nil
 }
 
+// NewServerOn is NewServer on a given address (a backend that comes up late, or comes back).
+func NewServerOn(addr string, h func(req *Message, reqErr error, conn net.Conn, br *bufio.Reader) bool) (*Server, error) {
+	l, err := net.Listen("tcp", addr)
+	if err != nil {
+		return nil, err
+	}
+	s := &Server{L: l, Handler: h}
+	go s.serve()
+	return s, nil
+}
+
 func (s *Server) Addr() string { return s.L.Addr().String() }
 func (s *Server) Port() int    { return s.L.Addr().(*net.TCPAddr).Port }
 func (s *Server) Close()       { s.L.Close() }
